@@ -51,6 +51,10 @@ var ErrInvalidKey = errors.New("invalid key")
 // ErrHardenedChildPublicKey is returned when ExtendedKey.DeriveChild is called with a hardened index on a public key.
 var ErrHardenedChildPublicKey = errors.New("cannot create hardened child from public parent key")
 
+// ErrNotHardened is returned when ExtendedKey.DeriveChild is called with a non-hardened index on a key of a curve
+// for which SLIP-10 only defines hardened derivation.
+var ErrNotHardened = errors.New("only hardened derivation is supported")
+
 // ExtendedKey represents a SLIP-10 extended private or public key.
 type ExtendedKey struct {
 	ChainCode []byte
@@ -164,6 +168,11 @@ func (e *ExtendedKey) DeriveChild(index uint32) (*ExtendedKey, error) {
 		}
 		inter = h.Sum(inter[:0])
 	} else {
+		// SLIP-10 does not define non-hardened derivation for every curve (e.g. ed25519)
+		if k, ok := e.Key.(interface{ HardenedOnly() bool }); ok && k.HardenedOnly() {
+			return nil, ErrNotHardened
+		}
+
 		// I = HMAC-SHA512(Key = chain_par, Data = ser_P(public_par) || ser32(index)),
 		// where public_par = key_par if par is a public key, or public_par = point(key_par) otherwise
 		h, err := hmacSHA512(e.ChainCode, e.Key.Public().Bytes(), uint32Bytes(index))
